@@ -146,3 +146,10 @@ func HarnessC12Composite()          { c12Scenario(1, 0) }
 func HarnessC12InstanceStep()       { c12Scenario(2, 0) }
 func HarnessC12CutByAmmo()          { c12Scenario(1, 1) }
 func HarnessC12CutBySharedProfile() { c12Scenario(1, 2) }
+
+// the same profiles with "lazy timers": a timer fires only when no goroutine has work left (firing
+// earlier costs scheduling delays), so instances finish their own RPS profile while the startup
+// profile is still waiting for its next token.
+func HarnessC12CompositeLazy()    { vLazyTimers(); c12Scenario(1, 0) }
+func HarnessC12InstanceStepLazy() { vLazyTimers(); c12Scenario(2, 0) }
+func HarnessC12DelayedStartLazy() { vLazyTimers(); c12Scenario(3, 0) }
